@@ -74,6 +74,7 @@ type Config struct {
 	HotProb    int64
 	StallTask  int32 // -1 none: task excluded from choices for StallFor decisions after its first pre-emption
 	StallFor   int
+	StallSet   []int32 // further tasks treated like StallTask (several callers frozen at their first pre-emption)
 	LowPrio    int32 // -1 none: task only chosen when nothing else is runnable
 	Faults     []Fault
 	SiteFlags  []uint8
@@ -133,6 +134,7 @@ type state struct {
 	rfd       [MaxTasks]int32
 	wfd       [MaxTasks]int32
 	stallLeft int
+	stalled   [MaxTasks]bool
 	lockDepth [MaxTasks]int32
 	opLimit   [MaxTasks]int64 // task-local yield count at which the current operation is cut off
 	baseLimit int64           // same for the sequential baseline
@@ -432,7 +434,7 @@ func nextBudget() int64 {
 func pickNext(exclude int32) int32 {
 	var cand [MaxTasks]int32
 	nc := 0
-	stallApplies := st.cfg.StallTask >= 0 && st.stallLeft > 0 && st.preempted[st.cfg.StallTask]
+	stallApplies := st.stallLeft > 0
 	skipped := false
 	for i := int32(0); i < st.n; i++ {
 		if st.done[i] || i == exclude {
@@ -441,7 +443,7 @@ func pickNext(exclude int32) int32 {
 		if i == st.cfg.LowPrio {
 			continue
 		}
-		if stallApplies && i == st.cfg.StallTask {
+		if stallApplies && st.stalled[i] && st.preempted[i] {
 			skipped = true
 			continue
 		}
@@ -630,7 +632,24 @@ func YieldBlocked() {
 		runtime.Gosched()
 		return
 	}
+	thawLockHolders()
 	switchOut(^uint32(0), true)
+}
+
+// thawLockHolders: a task that waits for a lock cannot proceed while a starved
+// ("frozen") task holds one; starving the holder any longer explores nothing, it
+// only burns scheduling decisions. The holder is released from the starvation set.
+//
+//go:norace
+func thawLockHolders() {
+	if st.stallLeft <= 0 {
+		return
+	}
+	for i := int32(0); i < st.n; i++ {
+		if st.stalled[i] && !st.done[i] && st.lockDepth[i] > 0 {
+			st.stalled[i] = false
+		}
+	}
 }
 
 // taskDone is called when the running task has finished all its work.
@@ -674,6 +693,15 @@ func begin(cfg *Config, n int) error {
 		st.tyields[i] = 0
 		st.lockDepth[i] = 0
 		st.opLimit[i] = 0
+		st.stalled[i] = false
+	}
+	if cfg.StallTask >= 0 && int(cfg.StallTask) < n {
+		st.stalled[cfg.StallTask] = true
+	}
+	for _, t := range cfg.StallSet {
+		if t >= 0 && int(t) < n {
+			st.stalled[t] = true
+		}
 	}
 	for i := 0; i < n; i++ {
 		var p [2]int
